@@ -562,12 +562,14 @@ def proc_line(p):
                      "&".join(pop_line(o) for o in p["ops"])])
 
 
-def case_line(case, v_rm=False, v_init=False, v_uloc=False, v_ustale=False, v_noread=False, v_shared=False):
+def case_line(case, v_rm=False, v_init=False, v_uloc=False, v_ustale=False, v_noread=False, v_shared=False,
+              v_foreign=False):
     univ = ";".join([",".join(NAMES), ",".join(VERSIONS), ",".join(TAGS), ",".join(ALLFLAVORS), ",".join(ALLUTAGS),
                      "+".join("%s=%s" % (u, ",".join(UTAGS[u])) for u in USERS)])
     b = lambda x: "1" if x else "0"
     return "\t".join(["case", b(v_rm), b(v_init), ",".join(STACKS), univ,
-                      "|".join(proc_line(p) for p in case["procs"]), b(v_uloc), b(v_ustale), b(v_noread), b(v_shared)])
+                      "|".join(proc_line(p) for p in case["procs"]), b(v_uloc), b(v_ustale), b(v_noread), b(v_shared),
+                      b(v_foreign)])
 
 
 def _d(x):
@@ -789,46 +791,37 @@ FLAVOR_COL = {"decl": 4, "tag": 4, "pdecl": 3, "ptag": 3, "list": 4, "utag": 4, 
 
 
 def oracle(case, obs):
-    """the property, on the implementation alone: every answer through the cache equals the answer from the files.
-    -> (process index, kind, answers only the files give, answers only the cache gives) or None.
-    Answers about the flavors the asking instance consults (its own and its fall-backs) come first; a difference
-    that concerns only a flavor outside that list is reported under its own kind (unconsulted-flavor)."""
-    foreign = None
+    """the property, on the implementation alone: every answer through the cache equals the answer from the files,
+    for every flavor asked about (the instance's own, its fall-backs and any other).
+    -> (process index, kind, answers only the files give, answers only the cache gives) or None."""
     for i, (p, o) in enumerate(zip(case["procs"], obs)):
         if o.get("raised"):
             # no answer at all: the caches (or the tag files) could not even be loaded
             return i, ("admin-load-raises" if p.get("adm") else "load-raises"), ["an Eups instance"], [o["raised"]]
         if not o.get("ans"):
             continue
-        consulted = [p["f"], "generic"]
         for k in ("decl", "tag", "pdecl", "ptag", "list", "utag", "putag"):
             if k not in o["ans"]:
                 continue
-            col = FLAVOR_COL[k]
-            for own in (True, False):
-                rows = [r for r in o["ans"][k] if (r[col] in consulted) == own]
-                c = sorted(r[1:] for r in rows if r[0] == "cache")
-                f = sorted(r[1:] for r in rows if r[0] == "files")
-                if c == f:
-                    continue
-                only_f, only_c = [r for r in f if r not in c], [r for r in c if r not in f]
-                if not own:
-                    if foreign is None:
-                        foreign = (i, "unconsulted-flavor-" + k, only_f, only_c)
-                    continue
-                # the label says which clause broke: a declaration (or tag) the files have and the cache lacks,
-                # one only the cache has, or the same declarations with different tag lists
-                bare = lambda rows: sorted(r[:-1] for r in rows) if k in ("decl", "pdecl", "list") else rows
-                if bare(c) == bare(f):
-                    # same declarations, different tag lists: say whether user tags are what differs
-                    ut = lambda rows: sorted([r[:-1], [t for t in r[-1] if t.startswith("user:")]] for r in rows)
-                    what = "user-tags-of-version" if ut(c) != ut(f) else "tags-of-version"
-                elif [r for r in bare(f) if r not in bare(c)]:
-                    what = "missing-from-cache"
-                else:
-                    what = "only-in-cache"
-                return i, "incoherent-%s-%s" % (k, what), only_f, only_c
-    return foreign
+            rows = o["ans"][k]
+            c = sorted(r[1:] for r in rows if r[0] == "cache")
+            f = sorted(r[1:] for r in rows if r[0] == "files")
+            if c == f:
+                continue
+            only_f, only_c = [r for r in f if r not in c], [r for r in c if r not in f]
+            # the label says which clause broke: a declaration (or tag) the files have and the cache lacks,
+            # one only the cache has, or the same declarations with different tag lists
+            bare = lambda rows: sorted(r[:-1] for r in rows) if k in ("decl", "pdecl", "list") else rows
+            if bare(c) == bare(f):
+                # same declarations, different tag lists: say whether user tags are what differs
+                ut = lambda rows: sorted([r[:-1], [t for t in r[-1] if t.startswith("user:")]] for r in rows)
+                what = "user-tags-of-version" if ut(c) != ut(f) else "tags-of-version"
+            elif [r for r in bare(f) if r not in bare(c)]:
+                what = "missing-from-cache"
+            else:
+                what = "only-in-cache"
+            return i, "incoherent-%s-%s" % (k, what), only_f, only_c
+    return None
 
 
 # the model follows the tree under test.  /repo as it is: the user-tag repairs proposed in proposed_fixes/C07-*.diff are
@@ -908,7 +901,7 @@ def classify(c, m, dis, r):
     to the failing process; (2) a chain file named like a user tag is in a stack's ups_db by then; (3) the two sets of
     answers differ in nothing but tags of those names (the same declarations, directories, global tags)."""
     i, kind, only_f, only_c = r
-    if tree_variant() is not PINNED or kind.startswith("unconsulted-flavor-") or kind.endswith("load-raises"):
+    if tree_variant() is not PINNED or kind.endswith("load-raises"):
         return kind
     if dis is not None and dis[0] <= i:
         return kind
@@ -952,7 +945,7 @@ def process(ctx, results, budget=[6]):
         if orc is not None:
             cc, r = c, orc
             kind = orc[1]
-            open_finding = classify(c, m, dis, orc).startswith(("user-tag-location/", "unconsulted-flavor-"))
+            open_finding = classify(c, m, dis, orc).startswith("user-tag-location/")
             # two shrunk witnesses per clause are enough; the open findings have theirs in the corpus
             if budget[0] > 0 and KIND_SHRUNK.get(kind, 0) < 2 and not open_finding:
                 KIND_SHRUNK[kind] = KIND_SHRUNK.get(kind, 0) + 1
@@ -1019,9 +1012,10 @@ def configure(ctx):
         "no user's data directory is a stack's ups_db; an administrator's instance (asAdmin) only loads - the command "
         "line offers it to eups admin buildCache / clearCache only - and holds no user tags (documented in Eups.__init__); "
         "the user-tag theorem is about the instances of ordinary users",
-        "the theorem is about queries for flavors the asking instance consults (its own flavor and the fall-back "
-        "generic); queries about any other flavor are asked as well, compared with the model, and their incoherence is "
-        "the open finding matched by c07.unconsulted_flavor",
+"the answers are asked and compared for every flavor, those the asking instance did not load included (repaired: "
+        "they are read from the database files, Eups._readDatabase; proposed_fixes/C07-unloaded-flavor-from-database); the "
+        "user-tag theorem keeps the hypothesis that the flavor is consulted or that no chain file of a stack is named like "
+        "the user tag",
         "the model runs with the behaviours of the tree under test: on /repo as it is the four user-tag switches of "
         "Model/Cache.v are pinned (Eups.assignTag writes a user tag's chain file among the stack's own, open finding "
         "D42; nothing then ever writes into a tag directory, so the other three are never exercised); "
@@ -1037,8 +1031,7 @@ def configure(ctx):
         "(death inside the database call is C08)"]
     # open finding: an Eups that loaded its stacks from cache files holds its own flavor and the fall-backs only,
     # and answers "not declared" for any other flavor (after a rebuild in the same process it holds every flavor)
-    ctx.matchers = {"c07.unconsulted_flavor": lambda f: f["kind"].startswith("unconsulted-flavor-"),
-                    # the kind is given by classify() above, which checks the mechanism, not the mere presence of user tags
+    ctx.matchers = {# the kind is given by classify() above, which checks the mechanism, not the mere presence of user tags
                     "c07.user_tag_location": lambda f: f["kind"].startswith("user-tag-location/")}
 
 
